@@ -19,7 +19,7 @@ def build_jobs(t: str, sd: int):
     thorough = t != "quick"
     jobs = []
     versions = list(range(3, 11)) if thorough else [3, 5, 8, 10]
-    for v in versions:
+    for vi, v in enumerate(versions):
         fam = gen_const.const_family("A", v, sd, thorough)
         if thorough:
             for extra in range(1, 8):
@@ -31,7 +31,7 @@ def build_jobs(t: str, sd: int):
                 fam.append(gen_const.boundary_family("A", v, n, "int"))
                 fam.append(gen_const.boundary_family("A", v, n, "bytes"))
         if thorough or v == 8:
-            fam += gen.control_family("A", v, False)[::4] + gen.operator_sweep("A", v, False)[::3]
+            fam += gen.control_family("A", v, False)[vi % 4::4] + gen.operator_sweep("A", v, False)[vi % 3::3]
         for (name, rec, opts) in fam:
             j = {"id": "%s@v%d" % (name, v), "family": ":".join(name.split(":")[:2]), "rec": to_json(rec),
                  "A": {"version": v, "optimize": None, "assemble": False}, "B": {"version": v, "optimize": None, "assemble": True},
